@@ -416,7 +416,7 @@ func runC12(e *Env, r *core.Run) {
 	{
 		nontrivial = true
 		b := clone(kpb)
-		kind := []string{"scalar-bit-255", "scalar-plus-L", "keypair-other-public-half", "nonce-bit"}[t.W(4)]
+		kind := []string{"scalar-bit-255", "scalar-plus-L", "keypair-other-public-half", "nonce-bit", "scalar-is-L", "scalar-is-L-plus-1", "scalar-is-2^255-1"}[t.W(7)]
 		mustReject := true
 		switch kind {
 		case "scalar-bit-255":
@@ -425,6 +425,21 @@ func runC12(e *Env, r *core.Run) {
 			addL(b[:32])
 		case "keypair-other-public-half":
 			copy(b[64:], pkb2)
+		case "scalar-is-L":
+			// exactly the group order: a second encoding of the scalar 0, with the matching public key (identity)
+			copy(b[:32], groupOrderL[:])
+			copy(b[64:], make([]byte, 32))
+		case "scalar-is-L-plus-1":
+			copy(b[:32], groupOrderL[:])
+			b[0]++
+			one := make([]byte, 32)
+			one[0] = 1
+			copy(b[64:], model.SrMulBase(one))
+		case "scalar-is-2^255-1":
+			for i := 0; i < 32; i++ {
+				b[i] = 0xff
+			}
+			b[31] = 0x7f
 		default:
 			b[32+t.W(32)] ^= 1 << uint(t.W(8))
 			mustReject = false // a different nonce is a different, valid secret key
